@@ -40,6 +40,8 @@
 (*   F2  Filter   params {f: 2, g: 1}      str "F2"                        *)
 (*   N1  Filter   has NO params attribute  str "N1"                        *)
 (*   EF  Filter   an EnvironmentFilter, params {}; str "EF()"              *)
+(*   X1  Filter   a filter whose filter() RAISES (after counting the call), *)
+(*                no params attribute, str "X1"                            *)
 (*   K1  Sink     params {snk: 1}          str "K1"                        *)
 (*   K2  Sink     params {f: 3}            str "K2"                        *)
 (*   O1  None     a plain object(): neither read nor filter nor write      *)
@@ -68,7 +70,10 @@
 (* list.  A join of ONE argument is again a composite (with len / iter /   *)
 (* index; Environments relies on it, environments/core.py 645, 1138).      *)
 (* Nothing is called at join time.  A call of a composite calls every      *)
-(* stage once, in order, handing each the result of the one before.        *)
+(* stage once, in order, handing each the result of the one before; when a *)
+(* stage raises, the stages after it are not called, nothing is written,   *)
+(* the exception leaves the call unchanged (test_exception) and the        *)
+(* composite is as usable as before.                                       *)
 (* Foreach(p).filter(items) = p.filter of every item in order (an          *)
 (* iterable); Foreach(p).write(items) = p.write of every item in order.    *)
 (* params(composite) = the params of the stages that have any, in stage    *)
@@ -115,13 +120,13 @@ Front(s) == SubSeq(s, 1, Len(s) - 1)
 
 -----------------------------------------------------------------------------
 (* ============================ Part "join" ================================ *)
-AllAtoms  == {"S1", "E1", "F1", "F2", "N1", "EF", "K1", "K2", "O1"}
+AllAtoms  == {"S1", "E1", "F1", "F2", "N1", "EF", "X1", "K1", "K2", "O1"}
 SinkAtoms == {"K1", "K2"}
 AtomKind(a) == CASE a \in {"S1", "E1"} -> "Source"
-                 [] a \in {"F1", "F2", "N1", "EF"} -> "Filter"
+                 [] a \in {"F1", "F2", "N1", "EF", "X1"} -> "Filter"
                  [] a \in {"K1", "K2"} -> "Sink"
                  [] OTHER -> "None"
-AtomHasParams(a) == a \notin {"N1", "O1"}
+AtomHasParams(a) == a \notin {"N1", "X1", "O1"}
 AtomParams(a) == CASE a = "S1" -> << <<"src", 1>> >>
                    [] a = "E1" -> << <<"env", 1>> >>
                    [] a = "F1" -> << <<"f", 1>> >>
@@ -167,38 +172,45 @@ JoinResult(args) ==
 SrcVal(a, n) == << <<a, n, 1>>, <<a, n, 2>> >>
 X0 == << <<"x", 1>>, <<"x", 2>> >>
 RECURSIVE FilterR(_, _, _), ChainF(_, _, _, _, _), MapF(_, _, _, _), WriteR(_, _, _), MapW(_, _, _, _)
+(* every result is [v, st, ok]: ok = FALSE when a stage raised - then v is void and st is the state at that moment *)
 FilterR(r, v, st) ==
-  IF IsAtom(r) THEN LET n == st.calls[r.a] + 1 IN [v |-> Append(v, <<r.a, n>>), st |-> [st EXCEPT !.calls[r.a] = n]]
+  IF IsAtom(r) THEN LET n == st.calls[r.a] + 1 IN
+                    IF r.a = "X1" THEN [v |-> <<>>, st |-> [st EXCEPT !.calls[r.a] = n], ok |-> FALSE]
+                    ELSE [v |-> Append(v, <<r.a, n>>), st |-> [st EXCEPT !.calls[r.a] = n], ok |-> TRUE]
   ELSE IF objs[r.o].t = "each" THEN MapF(objs[r.o].inner, v, 1, st)                      \* core.py 22-24
   ELSE ChainF(objs[r.o].stages, 1, Len(objs[r.o].stages), v, st)                         \* filters.py 21-24
 (* the filters stages[i..j] in order (sources.py 26-28, sinks.py 21-22, lines.py 161-162) *)
 ChainF(stages, i, j, v, st) ==
-  IF i > j THEN [v |-> v, st |-> st]
+  IF i > j THEN [v |-> v, st |-> st, ok |-> TRUE]
   ELSE IF Variant = "reversed"
-       THEN LET r1 == FilterR(stages[j], v, st) IN ChainF(stages, i, j - 1, r1.v, r1.st)
-       ELSE LET r1 == FilterR(stages[i], v, st) IN ChainF(stages, i + 1, j, r1.v, r1.st)
+       THEN LET r1 == FilterR(stages[j], v, st) IN IF r1.ok THEN ChainF(stages, i, j - 1, r1.v, r1.st) ELSE r1
+       ELSE LET r1 == FilterR(stages[i], v, st) IN IF r1.ok THEN ChainF(stages, i + 1, j, r1.v, r1.st) ELSE r1
 MapF(inner, v, i, st) ==
-  IF i > Len(v) THEN [v |-> <<>>, st |-> st]
-  ELSE LET r1 == FilterR(inner, v[i], st)
-           r2 == MapF(inner, v, i + 1, r1.st)
-       IN [v |-> <<r1.v>> \o r2.v, st |-> r2.st]
+  IF i > Len(v) THEN [v |-> <<>>, st |-> st, ok |-> TRUE]
+  ELSE LET r1 == FilterR(inner, v[i], st) IN
+       IF ~r1.ok THEN r1
+       ELSE LET r2 == MapF(inner, v, i + 1, r1.st) IN
+            IF ~r2.ok THEN r2 ELSE [v |-> <<r1.v>> \o r2.v, st |-> r2.st, ok |-> TRUE]
 WriteR(r, v, st) ==
-  IF IsAtom(r) THEN [st EXCEPT !.calls[r.a] = @ + 1, !.sinks[r.a] = Append(@, v)]
+  IF IsAtom(r) THEN [v |-> <<>>, st |-> [st EXCEPT !.calls[r.a] = @ + 1, !.sinks[r.a] = Append(@, v)], ok |-> TRUE]
   ELSE IF objs[r.o].t = "each" THEN MapW(objs[r.o].inner, v, 1, st)                      \* core.py 26-30
   ELSE LET stg == objs[r.o].stages
            f   == ChainF(stg, 1, Len(stg) - 1, v, st)
-       IN WriteR(Last(stg), f.v, f.st)                                                   \* sinks.py 20-23
-MapW(inner, v, i, st) == IF i > Len(v) THEN st ELSE MapW(inner, v, i + 1, WriteR(inner, v[i], st))
+       IN IF f.ok THEN WriteR(Last(stg), f.v, f.st) ELSE f                               \* sinks.py 20-23
+MapW(inner, v, i, st) ==
+  IF i > Len(v) THEN [v |-> <<>>, st |-> st, ok |-> TRUE]
+  ELSE LET w == WriteR(inner, v[i], st) IN IF w.ok THEN MapW(inner, v, i + 1, w.st) ELSE w
+ReadAtom(a, st) == LET n == st.calls[a] + 1 IN [v |-> SrcVal(a, n), st |-> [st EXCEPT !.calls[a] = n], ok |-> TRUE]
 ReadR(r, st) ==
-  IF IsAtom(r) THEN LET n == st.calls[r.a] + 1 IN [v |-> SrcVal(r.a, n), st |-> [st EXCEPT !.calls[r.a] = n]]
+  IF IsAtom(r) THEN ReadAtom(r.a, st)
   ELSE LET stg == objs[r.o].stages
-           s   == LET n == st.calls[stg[1].a] + 1 IN [v |-> SrcVal(stg[1].a, n), st |-> [st EXCEPT !.calls[stg[1].a] = n]]
+           s   == ReadAtom(stg[1].a, st)
        IN ChainF(stg, 2, Len(stg), s.v, s.st)                                            \* sources.py 24-28
 RunR(r, st) ==
   LET stg == objs[r.o].stages
-      s   == ReadR(stg[1], st)
+      s   == ReadAtom(stg[1].a, st)
       f   == ChainF(stg, 2, Len(stg) - 1, s.v, s.st)
-  IN WriteR(Last(stg), f.v, f.st)                                                        \* lines.py 152-164
+  IN IF f.ok THEN WriteR(Last(stg), f.v, f.st) ELSE f                                    \* lines.py 152-164
 
 (* ---- params and str ---- *)
 RECURSIVE HasP(_), RawParams(_), StrOf(_), AtomsOf(_)
@@ -261,6 +273,7 @@ Join == /\ Building
 Each == /\ Building /\ AllowEach
         /\ \E r \in RefsNow :
              /\ Kind(r) \in {"Filter", "Sink"} /\ EachFree(r)
+             /\ \A p \in DOMAIN AtomsOf(r) : AtomsOf(r)[p] # "X1"    \* the raising stage is not put under a Foreach: how far a lazy Foreach got when it raises is not documented
              /\ budget.leaves + Leaves(<<r>>) <= MaxLeaves /\ budget.args + 1 <= MaxArgs
              /\ objs' = Append(objs, EachO(Kind(r), r))
              /\ budget' = [budget EXCEPT !.leaves = @ + Leaves(<<r>>), !.args = @ + 1]
@@ -273,11 +286,11 @@ DoCall(i) ==
       k  == objs[i].kind
       res == CASE k = "Source" -> ReadR(r, st)
                [] k = "Filter" -> FilterR(r, X0, st)
-               [] k = "Sink"   -> [v |-> <<>>, st |-> WriteR(r, X0, st)]
-               [] k = "Line"   -> [v |-> <<>>, st |-> RunR(r, st)]
+               [] k = "Sink"   -> WriteR(r, X0, st)
+               [] k = "Line"   -> RunR(r, st)
   IN /\ calls' = res.st.calls /\ sinks' = res.st.sinks
      /\ hist' = Append(hist, [op |-> CASE k = "Source" -> "read" [] k = "Filter" -> "filter" [] k = "Sink" -> "write" [] k = "Line" -> "run",
-                              args |-> <<r>>, ok |-> TRUE, out |-> res.v, amb |-> Ambiguous(r), state |-> Snapshot])
+                              args |-> <<r>>, ok |-> res.ok, out |-> IF res.ok THEN res.v ELSE <<>>, amb |-> Ambiguous(r), state |-> Snapshot])
 Good == {i \in DOMAIN objs : objs[i].t # "err"}
 SweepOrder == LET up == SelectSeq([i \in 1..Len(objs) |-> i], LAMBDA i : i \in Good)
               IN up \o [k \in 1..Len(up) |-> up[Len(up) + 1 - k]]
@@ -321,13 +334,19 @@ GroupingFree == Part = "join" => \A k \in JoinSteps :
 CallSteps == {k \in DOMAIN hist : hist[k].op \in {"read", "filter", "write", "run"}}
 Lazy == (Part = "join" /\ CallSteps = {}) => \A a \in AllAtoms : calls[a] = 0
 Before(k) == IF k = 1 THEN [a \in AllAtoms |-> 0] ELSE hist[k - 1].state.calls
+FirstX(as) == IF \E p \in DOMAIN as : as[p] = "X1" THEN CHOOSE p \in DOMAIN as : as[p] = "X1" /\ \A q \in 1..(p - 1) : as[q] # "X1" ELSE Len(as)
 ExactlyOnce == Part = "join" => \A k \in CallSteps :
                  LET r == hist[k].args[1] IN
-                 EachFree(r) => \A a \in AllAtoms :
-                    hist[k].state.calls[a] - Before(k)[a] = Cardinality({p \in DOMAIN AtomsOf(r) : AtomsOf(r)[p] = a})
+                 EachFree(r) => LET as == AtomsOf(r) IN \A a \in AllAtoms :
+                    hist[k].state.calls[a] - Before(k)[a] = Cardinality({p \in 1..FirstX(as) : as[p] = a})
+(* a call raises iff it reaches a raising stage; then nothing is written by it *)
+FailStop == Part = "join" => \A k \in CallSteps :
+              LET r == hist[k].args[1] IN
+              /\ hist[k].ok <=> \A p \in DOMAIN AtomsOf(r) : AtomsOf(r)[p] # "X1"
+              /\ (~hist[k].ok) => hist[k].state.sinks = (IF k = 1 THEN [a \in SinkAtoms |-> <<>>] ELSE hist[k - 1].state.sinks)
 (* the tokens a value collected name the filter stages of the object in order *)
 Tokens(v, base) == SubSeq(v, base + 1, Len(v))
-InOrder == Part = "join" => \A k \in CallSteps : hist[k].op \in {"read", "filter"} =>
+InOrder == Part = "join" => \A k \in CallSteps : (hist[k].op \in {"read", "filter"} /\ hist[k].ok) =>
              LET r == hist[k].args[1] IN
              (EachFree(r) /\ objs[r.o].t = "comp") =>
                 LET fs == SelectSeq(AtomsOf(r), LAMBDA a : AtomKind(a) = "Filter")
